@@ -197,7 +197,7 @@ Check(ci, kk) ==
 \* One line per (case, input) on which some artefact does not simply agree.  The harness classifies
 \* them (listed finding / violation); TLC's own INVARIANT is used only in replay mode, because
 \* reporting thousands of invariant violations serialises the workers on TLC's trace printer.
-Brief(v) == IF v.r \in {"unspec", "diverged"} THEN [r |-> v.r] ELSE v
+Brief(v) == v
 Report(ci, kk, v) ==
     IF \A i \in 1..Len(v) : v[i].r = "agree" /\ v[i].model = "exec" THEN TRUE
     ELSE PrintT("TVREPORT " \o ToJson([id |-> Cases[ci].id, k |-> kk, v |-> [i \in 1..Len(v) |-> Brief(v[i])]]))
